@@ -18,6 +18,7 @@ var mutValues = []string{
 	"~", "null", "true", "1", "1.5", "[]", "{}", "[a]", "{a: b}", `""`, "''", "|", ">", "|-", ">+", "!!binary aGk=", "!!str 1",
 	"!!int x", "*a", "&a x", "'{{ $x }}'", `"{{ .X }}"`, "sum(", "1x", "0", "-1", "0x10", "2024-01-01", ".inf", "? a", "- a", "foo{bar}",
 	"__name__", `"\xff"`, `"\u0000"`, "a: b: c", "@", "`", "%", "!", "&", "*",
+	`up{"foo(bar"=~"a"}`, `{"a.b"="c"}`, `up{job=~"a|b"} == 0`, `sum by ("a b") (up)`, `'{"up", job!~"[a"}'`, `count({__name__=~".+"})`,
 }
 
 var mutLines = []string{
